@@ -239,12 +239,12 @@ def EntOk (c : ConnState) : Prop := inI64 c.sentTime ∧ inI64 c.lastAckedPacket
 def MapOk (q : PNQ ConnState) : Prop := ∀ e ∈ q.entries.toList, e.present = true → EntOk e.val
 
 /-- the sampler's own `lastAckedPacketSentTime` and the send times stored in the map are int64 values -/
-def TimesOk (b : Sampler) : Prop := inI64 b.lastAckedPacketSentTime ∧ MapOk b.map
+def TimesI64 (b : Sampler) : Prop := inI64 b.lastAckedPacketSentTime ∧ MapOk b.map
 
 /-- sampler invariant: the packet map satisfies the queue invariant of layer (a) (with ghost `last` = last packet
     number Emplace accepted), the A0-candidate ring is well-formed, and all stored send times are int64 values
     (third conjunct, needed for the first `BandwidthFromDelta` divisor, see `u64_i64_eq_zero_iff`) -/
-def SInv (b : Sampler) (last : Int) : Prop := Pnq.GInv b.map last ∧ b.a0.WF ∧ TimesOk b
+def SInv (b : Sampler) (last : Int) : Prop := Pnq.GInv b.map last ∧ b.a0.WF ∧ TimesI64 b
 
 /-- the sampler's API as the sender uses it -/
 inductive Call where
@@ -834,5 +834,18 @@ theorem sample_bandwidth_le_sendRate (b : Sampler) (t pn : Int) (b' : Sampler) (
       · obtain ⟨sr, h3, h4⟩ := (bind_eq_ok _ _ _).1 h2
         exact ackRest_sample t c sr (bandwidthFromDelta_le _ _ _ h3) _ b' s h4
       · exact ackRest_sample t c infBandwidth (Nat.le_refl _) _ b' s h2
+
+/-! ### why `Call.wellFormed` asks for int64 send times -/
+
+/-- With only `-1 ≤ pn` required of `.sent`, the model (whose time fields are unbounded `Int`s) does reach the
+    first `BandwidthFromDelta` panic: two packets sent exactly 2^64 ns apart make
+    `Bandwidth(int64(sentTime − lastAckedPacketSentTime))` zero although `sentTime > lastAckedPacketSentTime`.
+    In Go the arguments are `monotime.Time` (int64), so the difference of two of them is a non-zero value
+    below 2^64 — that is the hypothesis `inI64 t` of `Call.wellFormed` and the third conjunct of `SInv`. -/
+theorem times_must_be_int64 :
+    (Sampler.new 10 4 4).runCalls
+      [.sent 1 0 1200 0 true, .sent 18446744073709551617 1 1200 1200 true, .event 5 [(1, 1200)] [] 0 0 0]
+      = .panic := by
+  decide
 
 end Hy.Sampler
